@@ -27,7 +27,8 @@ ASSUMPTIONS = ['a released thread is waited for until it is gone, so '
 FLOORS = {'skipped_tests_judged': 60, 'tests_judged': 1500, 'leaks_expected': 400,
           'leak_across_later_test': 200, 'ident_reuse_histories': 30,
           'ignored_threads': 100, 'dummy_threads': 200,
-          'renames_in_later_tests': 40, 'leaks_sharing_a_name': 40}
+          'renames_in_later_tests': 40, 'leaks_sharing_a_name': 40,
+          'ended_thread_objects_freed': 300}
 BATCH_TIMEOUT = 300
 
 HEADER = 'The following test left new threads behind:'
@@ -357,6 +358,18 @@ def run_case(case):
               extra=[(k, started[k]) for k in extra])
     C('renames_in_later_tests', sum(
         1 for e in w.events if e['k'] == 'thread.rename'))
+    # ended threads are forgotten by the world: their objects must really be
+    # gone when the next test ends (otherwise a runner that only holds them
+    # weakly is never put to the test)
+    ended = {e['key'] for e in w.events
+             if e['k'] == 'thread.release' and e.get('gone') and
+             e.get('freed') is not None}
+    kept = set()
+    for e in w.events:
+        if e['k'] == 'thread.alive':
+            kept = set(e.get('ended_but_kept') or ())
+    C('ended_thread_objects_freed', len(ended - kept))
+    C('ended_thread_objects_still_referenced', len(ended & kept))
     sig = None
     if nontrivial:
         sig = [hist, case['ign'], bool(case.get('reuse'))]
